@@ -22,7 +22,7 @@ func BaseWeights() map[string]int {
 // ProfileFor returns the generator profile of a property.
 func ProfileFor(prop string) Profile {
 	w := BaseWeights()
-	p := Profile{Name: prop, Steps: 70, HookEvery: 5, Weights: w, MaxWorkers: 5}
+	p := Profile{Name: prop, Steps: 70, HookEvery: 5, Weights: w, MaxWorkers: 6}
 	switch prop {
 	case "C01":
 		p.HookEvery = 1
